@@ -62,6 +62,9 @@ static void set_ops(const Interval& x, const Interval& y) {
   EMIT("is_subset %s %s => %s\n", tok(x).c_str(), tok(y).c_str(), tok(x.is_subset(y)).c_str());
   EMIT("is_strict_subset %s %s => %s\n", tok(x).c_str(), tok(y).c_str(), tok(x.is_strict_subset(y)).c_str());
   EMIT("is_interior_subset %s %s => %s\n", tok(x).c_str(), tok(y).c_str(), tok(x.is_interior_subset(y)).c_str());
+  EMIT("is_strict_interior_subset %s %s => %s\n", tok(x).c_str(), tok(y).c_str(), tok(x.is_strict_interior_subset(y)).c_str());
+  EMIT("is_relative_interior_subset %s %s => %s\n", tok(x).c_str(), tok(y).c_str(), tok(x.is_relative_interior_subset(y)).c_str());
+  EMIT("is_strict_subset %s %s => %s\n", tok(y).c_str(), tok(x).c_str(), tok(x.is_strict_superset(y)).c_str());
   EMIT("is_subset %s %s => %s\n", tok(y).c_str(), tok(x).c_str(), tok(x.is_superset(y)).c_str());
   EMIT("intersects %s %s => %s\n", tok(x).c_str(), tok(y).c_str(), tok(x.intersects(y)).c_str());
   EMIT("overlaps %s %s => %s\n", tok(x).c_str(), tok(y).c_str(), tok(x.overlaps(y)).c_str());
@@ -102,6 +105,9 @@ static void box_ops(const IntervalVector& x, const IntervalVector& y) {
   EMIT("vis_subset %s %s => %s\n", sx.c_str(), sy.c_str(), tok(x.is_subset(y)).c_str());
   EMIT("vis_strict_subset %s %s => %s\n", sx.c_str(), sy.c_str(), tok(x.is_strict_subset(y)).c_str());
   EMIT("vis_interior_subset %s %s => %s\n", sx.c_str(), sy.c_str(), tok(x.is_interior_subset(y)).c_str());
+  EMIT("vis_strict_interior_subset %s %s => %s\n", sx.c_str(), sy.c_str(), tok(x.is_strict_interior_subset(y)).c_str());
+  EMIT("vis_relative_interior_subset %s %s => %s\n", sx.c_str(), sy.c_str(), tok(x.is_relative_interior_subset(y)).c_str());
+  EMIT("vis_strict_subset %s %s => %s\n", sy.c_str(), sx.c_str(), tok(x.is_strict_superset(y)).c_str());
   EMIT("vintersects %s %s => %s\n", sx.c_str(), sy.c_str(), tok(x.intersects(y)).c_str());
   EMIT("voverlaps %s %s => %s\n", sx.c_str(), sy.c_str(), tok(x.overlaps(y)).c_str());
   EMIT("vis_disjoint %s %s => %s\n", sx.c_str(), sy.c_str(), tok(x.is_disjoint(y)).c_str());
@@ -244,6 +250,14 @@ int main(int argc, char** argv) {
         T = A; T *= s; EMIT("vecop scale %s %s => %s\n", ss.c_str(), As.c_str(), vh::mtok(T).c_str());
         if (b == c) { T = A; T *= B; EMIT("vecop mul %s %s => %s\n", As.c_str(), Bs.c_str(), vh::mtok(T).c_str()); }
         rm("in-place"); }
+      // in-place variants whose right operand is the object itself (aliasing)
+      { IntervalVector t = x; t += t; EMIT("vecop add %s %s => %s\n", xs.c_str(), xs.c_str(), vh::mtok(t).c_str()); t = x; t -= t; EMIT("vecop sub %s %s => %s\n", xs.c_str(), xs.c_str(), vh::mtok(t).c_str());
+        IntervalMatrix T = A; T += T; EMIT("vecop add %s %s => %s\n", As.c_str(), As.c_str(), vh::mtok(T).c_str()); T = A; T -= T; EMIT("vecop sub %s %s => %s\n", As.c_str(), As.c_str(), vh::mtok(T).c_str());
+        IntervalMatrix S = rmat(a, a); string Ss = vh::mtok(S); IntervalMatrix U = S; U *= U; EMIT("vecop mul %s %s => %s\n", Ss.c_str(), Ss.c_str(), vh::mtok(U).c_str());
+        U = S; U *= U; U *= U; { IntervalMatrix S2 = S * S; EMIT("vecop mul %s %s => %s\n", vh::mtok(S2).c_str(), vh::mtok(S2).c_str(), vh::mtok(U).c_str()); }
+        Interval q = s; q *= q; EMIT("vecop mul %s %s => %s\n", ss.c_str(), ss.c_str(), vh::mtok(q).c_str()); q = s; q += q; EMIT("vecop add %s %s => %s\n", ss.c_str(), ss.c_str(), vh::mtok(q).c_str());
+        q = s; q -= q; EMIT("vecop sub %s %s => %s\n", ss.c_str(), ss.c_str(), vh::mtok(q).c_str());
+        rm("in-place-aliased"); }
     }
   } else { fprintf(stderr, "unknown workload\n"); return 2; }
   fprintf(stderr, "emitted %ld\n", emitted);
